@@ -12,6 +12,7 @@ mod server_drv;
 mod tsiglib_drv;
 mod writer_drv;
 mod zone_drv;
+mod zonefile_drv;
 
 fn main() {
     let args: Vec<String> = std::env::args().skip(1).collect();
@@ -29,6 +30,7 @@ fn main() {
         "names" => names_drv::main(&args[1..]),
         "zone" => zone_drv::main(&args[1..]),
         "catalog" => catalog_drv::main(&args[1..]),
+        "zonefile" => zonefile_drv::main(&args[1..]),
         d => {
             eprintln!("unknown driver {}", d);
             std::process::exit(2);
